@@ -267,6 +267,7 @@ impl<'t, D: Distance> Reader<'t, D> {
                 .remap_key_type::<PrefixCodec>()
                 .prefix_iter(rtxn, &Prefix::item(self.index))?
                 .remap_key_type::<KeyCodec>(),
+            dimensions: self.dimensions,
         })
     }
 
